@@ -171,9 +171,10 @@ Result execute(const Plan &p) {
     }
     const double eps_strong_used = prm.get("precond.coarsening.aggr.eps_strong", 0.08);      // a double parameter in the distributed PMIS
     std::vector<double> x(n, 0.0); std::vector<double> iters(R, -1), resid(R, -1);
-    // history on one distributed hierarchy: rebuild with the matrix scaled by two (every operation of the setup and the solve is exact
-    // under a power-of-two scaling, so the rebuilt object must act bit for bit like a fresh one built for 2*A)
-    const bool do_rebuild = p.get("rebuild", 0) != 0 && kind == K_MPI_AMG && nscols == 0;
+    // history on one distributed hierarchy: rebuild with the matrix scaled by two (the transfer operators of a fresh hierarchy for 2*A
+    // are those of A, so the rebuilt object must act like a fresh one built for 2*A)
+    // (not with the threshold-based ILUT, the statement's own exception to exact power-of-two scaling)
+    const bool do_rebuild = p.get("rebuild", 0) != 0 && kind == K_MPI_AMG && nscols == 0 && relax != 4;
     if (do_rebuild) prm.put("precond.allow_rebuild", true);
     std::vector<double> x2(n, 0.0), x3(n, 0.0), it2(R, -1), rs2(R, -1), it3(R, -1), rs3(R, -1);
     bool any_empty = false; for (int r = 0; r < R; ++r) if (rp[r+1] == rp[r]) any_empty = true;
@@ -287,9 +288,13 @@ Result execute(const Plan &p) {
             if (do_rebuild) {
                 res.counts["rebuild_worlds"]++;
                 for (int r = 1; r < R; ++r) if (!bits_equal(it2[r], it2[0]) || !bits_equal(rs2[r], rs2[0])) { res.fail(sig("rank-consistent", "same-iterations-and-residual-after-rebuild", fmt("rank 0: %.0f iterations, residual %.17g; rank %d: %.0f, %.17g", it2[0], rs2[0], r, it2[r], rs2[r]))); break; }
-                bool same = bits_equal(it2[0], it3[0]) && bits_equal(rs2[0], rs3[0]); long at = -1;
-                for (long i = 0; i < n && same; ++i) if (!bits_equal(x2[i], x3[i])) { same = false; at = i; }
-                if (!same) res.fail(sig("rebuilt-equals-fresh", "rebuild(2A)-vs-fresh(2A)", fmt("rebuilt: %.0f iterations, residual %.17g; fresh: %.0f iterations, residual %.17g; first differing unknown %ld (%.17g vs %.17g)", it2[0], rs2[0], it3[0], rs3[0], at, at >= 0 ? x2[at] : 0.0, at >= 0 ? x3[at] : 0.0)));
+                // the rebuilt hierarchy acts like a fresh one for 2*A: not bit for bit (the recomputed coarse operators are assembled from
+                // transfer operators that already live in the backend, their rows come out in another order), but a rebuilt level that kept
+                // its old smoother or coarse factors shows as a different iteration count
+                if (rs2[0] < tol && rs3[0] < tol && std::fabs(it2[0] - it3[0]) > 2 + 0.25 * std::min(it2[0], it3[0]))
+                    res.fail(sig("rebuilt-acts-like-fresh", "rebuild(2A)-vs-fresh(2A)-iterations", fmt("rebuilt: %.0f iterations, residual %.3g; fresh solver for the same matrix: %.0f iterations, residual %.3g", it2[0], rs2[0], it3[0], rs3[0])));
+                else if ((rs2[0] < tol) != (rs3[0] < tol) && std::isfinite(rs2[0]) && std::isfinite(rs3[0]) && std::max(rs2[0], rs3[0]) > 100 * tol)
+                    res.fail(sig("rebuilt-acts-like-fresh", "rebuild(2A)-vs-fresh(2A)-convergence", fmt("rebuilt: %.0f iterations, residual %.3g; fresh solver for the same matrix: %.0f iterations, residual %.3g", it2[0], rs2[0], it3[0], rs3[0])));
                 // the rebuilt solver is truthful about the new system
                 long double r2 = 0; bool fin2 = true; for (long i = 0; i < n; ++i) { long double t = f[i]; for (ptrdiff_t j = A.ptr[i]; j < A.ptr[i+1]; ++j) t -= 2.0L * A.val[j] * x2[A.col[j]]; r2 += t * t; if (!std::isfinite(x2[i])) fin2 = false; }
                 double rstar2 = (double)std::sqrt((double)(r2 / (ff > 0 ? ff : 1)));
